@@ -124,6 +124,28 @@ def pairs(tier):
         cd = f"{cl} ::= CLASS {{ &id INTEGER (0..{P1}) UNIQUE, &flag BOOLEAN OPTIONAL, &Type }}"
         add(f"class-field component [{cl}]", cd, f"Mm ::= SEQUENCE {{ i {cl}.&id, f {cl}.&flag OPTIONAL }}", f"Mm ::= SEQUENCE {{ i INTEGER (0..{P1}), f BOOLEAN OPTIONAL }}", nonneg)
         add(f"class-field top-level [{cl}]", cd, f"Mm ::= {cl}.&id", f"Mm ::= INTEGER (0..{P1})", nonneg)
+    # ---- compositions: the expanded-in part itself contains a reference that has to be linked afterwards
+    up = f"upper INTEGER ::= {P1}"
+    for cn in ('C', 'Zc'):
+        ch = f"{up} {cn} ::= CHOICE {{ a INTEGER (0..upper), b BOOLEAN }}"
+        add(f"composed selection of value-ref alternative [{cn}]", ch, f"Mm ::= a < {cn}", f"Mm ::= INTEGER (0..{P1})", nonneg)
+        add(f"composed selection of value-ref alternative component [{cn}]", ch, f"Mm ::= SEQUENCE {{ s a < {cn} }}", f"Mm ::= SEQUENCE {{ s INTEGER (0..{P1}) }}", nonneg)
+        pr = f"Rr {{INTEGER: v}} ::= INTEGER (1..v) {cn} ::= CHOICE {{ a Rr {{{P1}}}, b BOOLEAN }}"
+        add(f"composed selection of parameterized alternative [{cn}]", pr, f"Mm ::= a < {cn}", f"Mm ::= INTEGER (1..{P1})", lambda v: [v[0] >= 1])
+    for bn in ('B', 'Zb'):
+        b = f"{up} {bn} ::= SEQUENCE {{ x INTEGER (0..upper), y BOOLEAN OPTIONAL }}"
+        add(f"composed components-of with value-ref component [{bn}]", b, f"Mm ::= SEQUENCE {{ p NULL, COMPONENTS OF {bn} }}", f"Mm ::= SEQUENCE {{ p NULL, x INTEGER (0..{P1}), y BOOLEAN OPTIONAL }}", nonneg)
+        bp = f"Rr {{INTEGER: v}} ::= INTEGER (1..v) {bn} ::= SEQUENCE {{ x Rr {{{P1}}} }}"
+        add(f"composed components-of with parameterized component [{bn}]", bp, f"Mm ::= SEQUENCE {{ p NULL, COMPONENTS OF {bn} }}", f"Mm ::= SEQUENCE {{ p NULL, x INTEGER (1..{P1}) }}", lambda v: [v[0] >= 1])
+    for cl in ('CLS', 'ZCLS'):
+        cd = f"{up} {cl} ::= CLASS {{ &id INTEGER (0..upper) UNIQUE, &Type }}"
+        add(f"composed class-field with value-ref [{cl}]", cd, f"Mm ::= SEQUENCE {{ i {cl}.&id }}", f"Mm ::= SEQUENCE {{ i INTEGER (0..{P1}) }}", nonneg)
+        add(f"composed class-field with value-ref top-level [{cl}]", cd, f"Mm ::= {cl}.&id", f"Mm ::= INTEGER (0..{P1})", nonneg)
+    for pn in ('P', 'Zp'):
+        tv = f"{up} {pn} {{INTEGER: v}} ::= INTEGER (0..v)"
+        add(f"composed parameterized value-ref argument [{pn}]", tv, f"Mm ::= {pn} {{upper}}", f"Mm ::= INTEGER (0..{P1})", nonneg)
+        tt = f"{up} {pn} {{T}} ::= SEQUENCE {{ a T }}"
+        add(f"composed parameterized constrained-type argument [{pn}]", tt, f"Mm ::= {pn} {{INTEGER (0..upper)}}", f"Mm ::= SEQUENCE {{ a INTEGER (0..{P1}) }}", nonneg)
     return out
 
 
